@@ -22,7 +22,7 @@ RULE = ("Hypothesis draws an environment with declared bounds/domains (ordering-
         "Non-trivial = >= 3 variables from >= 2 declarations, or one vector through a non-identity view."
         '  Also: vector base names with digits (x2, x10), different views with equal derived names in objective vs constraint, and a bound edited after get_bounds() was read (the next read must show it); a plain number as the objective.')
 BUDGET = {"quick": {"workers": 16, "examples": 600}, "thorough": {"workers": 16, "examples": 8000}}
-ASSUMPTIONS = ["variable names are unique per problem and have no leading zeros (documented preconditions)"]
+ASSUMPTIONS = ["variable names are unique per problem (documented precondition); names that differ only in leading zeros are ordered by the raw name"]
 MANIFEST = {
  "technique": "property-based testing (Hypothesis): Problem.variables/get_bounds vs syntactic variable set + independent natural-order comparator",
 }
